@@ -230,7 +230,7 @@ ADDENDA = {
     "C10": " Also decided: the continuation test of the position arm compares the new line with the remembered one at a token boundary (R10-prefix, defect F20); a continuation must extend the remembered line by a move list (second obligation of R10-prefix, defect F31); Engine.Move's text match is exact on origin, destination and promotion (R19-move re-decided as R10-move). Also decided (R10-decode, rule of C14): fen.Decode hands every field of the text on to the position and values it returns, each from its own field.",
     "C08": " The result clause reads, as corrected after defect F23: a take-back restores the game result the board reported before the move, claimable draws included.",
     "C12": " Also decided: the mate/stalemate verdict (which writes the board's result) is produced only on paths where no move was pushed, and PopMove is the exact inverse of PushMove on everything the board reports, the game result included (R08-inverse re-decided; defect F23), so a halted search hands the board back as received.",
-    "C19": " Also decided (R19-pushsrc): every move pushed on a board outside the board package derives from the position's own generator; fen.NewBoard fails it and is listed as known finding F26. Also decided (R19-meta, defect F22): some decision in the decoding family depends on both the castling rights and the placement, on both the en-passant square and the placement, and on both the en-passant square and the side to move, and rejects or repairs. Also decided (R19-homes, defects F22/F34): each castling right is checked against its own king and rook home squares, and the validating function accepts only placements with exactly one king per side.",
+    "C19": " Also decided (R19-pushsrc): every move pushed on a board outside the board package derives from the position's own generator; fen.NewBoard fails it and is listed as known finding F26. Also decided (R19-meta, defect F22): some decision in the decoding family depends on both the castling rights and the placement, on both the en-passant square and the placement, and on both the en-passant square and the side to move, and rejects or repairs. Also decided (R19-homes, defects F22/F34): each castling right is checked against its own king and rook home squares, and the validating function accepts only placements with exactly one king per side. R19-index also covers the command loops of both drivers (defect F36): a token picked by a constant index or a constant-bounded sub-list of the split input line is dominated by a length test.",
     "C13": " Also decided: the child window is the exact pre-image of the parent's window under Negate(IncrementMateDistance(.)) on every abstract score region (R13-frame; defect F19), and the negamax discipline of C03 including 'the move loop is left early only on alpha >= beta'.",
     "C15": " The time-control clause also requires the divisor of the time split to have a finite upper bound on every path (no int64 wrap-around to zero or below for a huge movestogo; defect F21). Anchors are role-based (the function started by the launcher, the handle's fields by type and use); the stop tests are recognised in the controller or in a bool helper it consults.",
     "C16": " A timer whose callback halts the engine is kept and stopped (R16-timer, defect F27); a hash size from the command line reaches the engine only range-checked (R16-options, defect F28); the completion's compare-and-swap expects a per-search id handed in by the caller and info lines are printed only for the search they belong to (R16-stale restated; the former known finding F12 is repaired), and searches are completed by the command loop itself, never by a goroutine it started (defect F32); the output channel is closed only after the forwarders were joined (R16-close-owner decides the join; the former known finding F11 is repaired); no command other than quit, end of input or close leaves the command loop (the former known finding F13 is repaired) - C16 has no listed findings left. The rules read the active flag through a representation-agnostic model (clear / arm / win / load). The noise generator's mutex must be shared by every copy of the generator (not a by-value field of a copied receiver). Also decided (R16-supersede): a command that halts the engine's search on the way to something else clears the active flag first; goroutines started by the command loop share only variables that are no longer assigned.",
